@@ -23,7 +23,7 @@ from pbt.core import Collector, HarnessError, mksig
 ID = "C11"
 RULE = ("generated statements (select / insert / insert..select / upsert / update / update..from / update..join / delete) over 1-3 sources of every shape with a "
         "uniquely named marker field in every clause (GROUP BY / ORDER BY also by column name string, clause calls before or after the joins, correlated subqueries linking one column name of two sources); six classes. Non-trivial = >= 2 sources or an aliased source, and fields in >= 3 different clauses; "
-        "distinct = distinct program.")
+        "distinct = distinct program. INSERT..SELECT..ON CONFLICT over one plain source as well as over a join (the handler may take a value from the SELECT source).")
 ASSUMPTIONS = [
     "multi-source = joins, several FROM items, a subquery in FROM, UPDATE..FROM, or a WHERE clause mentioning a table outside the statement's sources (property statement)",
     "must-stay-bare positions: INSERT column list, SET target, ON CONFLICT target, USING, EXCLUDED.<col>",
